@@ -118,8 +118,9 @@ impl<'a> ExpressionEvaluator<'a> {
                         "cannot apply unary operators to lists of values!".to_string(),
                     ));
                 };
+                // IS NOT NULL is the negation of IS NULL (both are never NULL themselves)
                 Ok(vec![DataType::Bool(Bool(
-                    matches!(evaluated[0], DataType::Null) || *negated,
+                    matches!(evaluated[0], DataType::Null) != *negated,
                 ))])
             }
             BoundExpression::Between {
@@ -137,8 +138,16 @@ impl<'a> ExpressionEvaluator<'a> {
                     ));
                 };
 
+                // A NULL operand makes the comparison unknown, negated or not
+                if matches!(inner[0], DataType::Null)
+                    || matches!(low[0], DataType::Null)
+                    || matches!(high[0], DataType::Null)
+                {
+                    return Ok(vec![DataType::Null]);
+                }
+
                 Ok(vec![DataType::Bool(Bool(
-                    (inner[0] >= low[0] && inner[0] <= high[0]) || *negated,
+                    (inner[0] >= low[0] && inner[0] <= high[0]) != *negated,
                 ))])
             }
             BoundExpression::Exists { query, negated } => {
@@ -163,9 +172,15 @@ impl<'a> ExpressionEvaluator<'a> {
                         "cannot apply unary operators to lists of values!".to_string(),
                     ));
                 };
-                Ok(vec![DataType::Bool(Bool(
-                    set.contains(&evaluated[0]) || *negated,
-                ))])
+                // A NULL operand, or a miss against a list holding a NULL, is unknown
+                let found = set.contains(&evaluated[0]);
+                if matches!(evaluated[0], DataType::Null)
+                    || (!found && set.contains(&DataType::Null))
+                {
+                    return Ok(vec![DataType::Null]);
+                }
+
+                Ok(vec![DataType::Bool(Bool(found != *negated))])
             }
             BoundExpression::Subquery { query, result_type } => {
                 todo!("Subquery evaluation is not yet implemented")
@@ -356,7 +371,7 @@ impl<'a> ExpressionEvaluator<'a> {
 
         // Convert back to Blob and wrap as Text
         Ok(DataType::Bool(Bool(
-            !negated && lhs_blob.like(pattern_blob.as_str()?)?,
+            lhs_blob.like(pattern_blob.as_str()?)? != negated,
         )))
     }
 
